@@ -16,7 +16,11 @@
 
 package sets
 
-import "istio.io/istio/pkg/verif"
+import (
+	"cmp"
+
+	"istio.io/istio/pkg/verif"
+)
 
 // Contracts of the generic set operations. They are proved once, with the element type an
 // uninterpreted sort, and used at every call site of the kernels of C02, C03, C04, C06 and C15.
@@ -113,7 +117,7 @@ func invDifference[T comparable](s, s2, result Set[T]) bool {
 // posIn: ghost - a position of x in r (meaningful only where a contract says so).
 //
 //verif:pure posIn
-func posIn[T comparable](r []T, x T) int { panic(verif.NotExecutable{"posIn"}) }
+func posIn[T comparable](r []T, x T) int { panic(verif.NotExecutable{What: "posIn"}) }
 
 // Assumed, not proved (trusted): the one missing obligation is the existential direction of the loop
 // invariant across append's copy; the other 14 obligations are discharged.
@@ -124,6 +128,21 @@ func ctUnsortedList[T comparable](s Set[T]) {
 	verif.Ensures("fresh", verif.Fresh(r))
 	verif.Ensures("lists-exactly-the-elements", verif.Forall(func(x T) bool { return inPrefix(r, len(r), x) == has(s, x) }))
 	// the same with a named witness (the position of x in the list), for proofs that need one
+	verif.Ensures("every-element-has-a-position", verif.Forall(func(x T) bool {
+		return !has(s, x) || (0 <= posIn(r, x) && posIn(r, x) < len(r) && r[posIn(r, x)] == x)
+	}))
+	verif.Ensures("receiver-unchanged", verif.Forall(func(x T) bool { return has(s, x) == verif.Old(func() bool { return has(s, x) }) }))
+}
+
+// SortedList is UnsortedList followed by the standard library's sort: it lists exactly the elements too.
+// Assumed, not proved (trusted), like UnsortedList; that the result is sorted is not stated (nothing under
+// contract needs it).
+//
+//verif:trusted-contract SortedList
+func ctSortedList[T cmp.Ordered](s Set[T]) {
+	r := SortedList(s)
+	verif.Ensures("fresh", verif.Fresh(r))
+	verif.Ensures("lists-exactly-the-elements", verif.Forall(func(x T) bool { return inPrefix(r, len(r), x) == has(s, x) }))
 	verif.Ensures("every-element-has-a-position", verif.Forall(func(x T) bool {
 		return !has(s, x) || (0 <= posIn(r, x) && posIn(r, x) < len(r) && r[posIn(r, x)] == x)
 	}))
